@@ -19,12 +19,15 @@ let () =
     | [] -> ()
     | "case" :: _ -> st := []; fl := { f_always = false; f_never = false; f_dontdisc = false }; print_endline line
     | ["flags"; a; n; d] -> fl := { f_always = (a = "1"); f_never = (n = "1"); f_dontdisc = (d = "1") }; obs ()
-    | ["conn"; rev] -> doit (OConn (rev = "1"))
-    | ["connhold"; rev] -> doit (OConnHold (rev = "1"))
+    | ["conn"; rev; m] -> doit (OConn (rev = "1", z_of_int (int_of_string m)))
+    | ["connhold"; rev; m] -> doit (OConnHold (rev = "1", z_of_int (int_of_string m)))
     | ["connrefuse"; rev] -> doit (OConnRefuse (rev = "1"))
     | ["release"; i] -> doit (ORelease (ni i))
-    | ["adv"; i] -> doit (OAdv (ni i))
-    | ["init"; i; sh] -> doit (OInit (ni i, sh <> "0"))
-    | ["drop"; i] -> doit (ODrop (ni i))
-    | ["probe"] -> obs ()
+    | ["adv"; i] -> doit (OAdv (ni i, false))
+    | ["advq"; i] -> doit (OAdv (ni i, true))
+    | ["init"; i; sh] -> doit (OInit (ni i, sh <> "0", false))
+    | ["initq"; i; sh] -> doit (OInit (ni i, sh <> "0", true))
+    | ["drop"; i] -> doit (ODrop (ni i, false))
+    | ["dropq"; i] -> doit (ODrop (ni i, true))
+    | ["probe"] -> st := pump !fl !st; obs ()
     | _ -> Printf.printf "?? %s\n" line)
